@@ -14,18 +14,18 @@ import (
 // exemption table keyed by function, one line of reason each.
 
 var xyExempt = map[string]string{
-	"getUnitNormal":                      "returns the edge direction rotated by 90 degrees: {dy, -dx}",
-	"(ClipperOffset).doSquare":           "builds perpendicular vectors {Y, -X} and {-Y, X} on purpose",
-	"(ClipperOffset).doRound":            "rotation step: newX = x*cos - sin*y, newY = x*sin + y*cos",
-	"Ellipse64":                          "first point is (center.X + radiusX, center.Y); then a rotation recurrence",
-	"EllipseD":                           "first point is (center.X + radiusX, center.Y); then a rotation recurrence",
-	"(Rect64).AsPath":                    "enumerates the four corners (left,top),(right,top),(right,bottom),(left,bottom)",
-	"(RectD).AsPath":                     "enumerates the four corners",
-	"(clipperBase).addNewIntersectNode":  "X is the edge's current x, Y the scanline: Point64{X: ae1.curX, Y: topY}",
-	"(clipperBase).doHorizontal":         "points on a horizontal edge: X from curX, Y is the edge's constant Y",
-	"(Group).GetLowestPathInfo":          "start value of a lexicographic (lowest Y, then lowest X) search: {MaxInt64, MinInt64}",
-	"intersectPoint":                     "line equations y = m*x + b are not symmetric in x and y",
-	"ScaleRectD":                         "corner points (left,top) and (right,bottom)",
+	"getUnitNormal":                     "returns the edge direction rotated by 90 degrees: {dy, -dx}",
+	"(ClipperOffset).doSquare":          "builds perpendicular vectors {Y, -X} and {-Y, X} on purpose",
+	"(ClipperOffset).doRound":           "rotation step: newX = x*cos - sin*y, newY = x*sin + y*cos",
+	"Ellipse64":                         "first point is (center.X + radiusX, center.Y); then a rotation recurrence",
+	"EllipseD":                          "first point is (center.X + radiusX, center.Y); then a rotation recurrence",
+	"(Rect64).AsPath":                   "enumerates the four corners (left,top),(right,top),(right,bottom),(left,bottom)",
+	"(RectD).AsPath":                    "enumerates the four corners",
+	"(clipperBase).addNewIntersectNode": "X is the edge's current x, Y the scanline: Point64{X: ae1.curX, Y: topY}",
+	"(clipperBase).doHorizontal":        "points on a horizontal edge: X from curX, Y is the edge's constant Y",
+	"(Group).GetLowestPathInfo":         "start value of a lexicographic (lowest Y, then lowest X) search: {MaxInt64, MinInt64}",
+	"intersectPoint":                    "line equations y = m*x + b are not symmetric in x and y",
+	"ScaleRectD":                        "corner points (left,top) and (right,bottom)",
 }
 
 var lowerPairs = map[string]string{"x": "y", "y": "x", "dx": "dy", "dy": "dx", "rx": "ry", "ry": "rx", "xV": "yV", "yV": "xV", "mxV": "myV", "myV": "mxV",
